@@ -106,6 +106,7 @@ Definition spec_handler (k : hkind) (cancelled : bool) (o : houtcome D) : expect
   if cancelled && negb (is_sync k) then ECode (-32800)
   else match o with
        | HRet => EResult
+       | HRetUnser => ECode (-32603)    (* not in C07's text; what C01 (row 11) promises *)
        | HRaiseRpc x => EOwn (x_code x) (x_msg x) (x_data x)
        | HRaiseOther text _ => ECodeText (-32603) text
        end.
